@@ -8,7 +8,11 @@ processes finish at once and write their own markers, nothing is spawned) and on
 exception (`RuntimeError`, `KeyboardInterrupt`, `SystemExit`), or by the death of the process (a subprocess
 "agent" killed by SIGKILL/SIGTERM inside the block, inside `__enter__` at the k-th link move, inside
 `__exit__` at the k-th unlink of `rmtree`).  Lock exclusivity: a second process enters the same experiment
-while the first is inside.
+while the first is inside.  A workspace is a directory however a run names it: separate histories let every
+run designate the same workspace its own way (relative path from the parent / a nested directory / the workspace
+itself, `WorkspaceSettings`, `find_workspace(workdir=…)`, a workspace of the settings file with its directory
+overridden, `run-experiment --workdir D | --workspace ID [--workdir D] | (default workspace)`); a link "leads to
+its job directory" when the file system, following it, arrives there (how the target is spelled is free).
 
 Layout of the processes: the check (this module, `correspond`) generates histories and hands them to
 *workers* (`python -m xv.props.c16 worker spec out`: fresh interpreters, one list of histories each, run in
@@ -161,6 +165,75 @@ def write_lib(base: Path) -> Path:
     return base / "lib"
 
 
+# ------------------------------------------------------------------ how a run names its workspace
+# The property speaks of "the same experiment of the same workspace": a workspace is a directory, whichever way
+# a run designates it.  An `enter` operation may carry `via = {"how": ..., "cwd": ...}`:
+#   through the API (`with experiment(<arg>, name)`), <arg> =
+#     path-rel / str-rel          a relative Path / str
+#     settings-rel / settings-abs `WorkspaceSettings(id, path)`
+#     find-workdir-rel / -abs     `experimaestro.settings.find_workspace(workdir=...)`
+#     find-named-rel / -abs       `find_workspace(workspace=<id of the settings file>, workdir=...)` (directory overridden)
+#   through `experimaestro run-experiment`:
+#     workdir-abs / workdir-rel   `--workdir D`
+#     named                       `--workspace main`      (settings file: main -> the workspace of the history)
+#     default                     neither option          (the first workspace of the settings file)
+#     named-abs / named-rel       `--workspace alt --workdir D`   (settings file: alt -> another directory, overridden)
+#   cwd = where the process is while the block runs: None (wherever the harness is), "parent" (the directory that
+#   holds the workspace: D = "ws…"), "nested" (D = "../../ws…"), "inside" (the workspace itself: D = ".").
+# No `via` = the absolute spellings used by all other histories.
+
+SETTINGS_WS = "alt"  # workspace id of the settings file of the worker / zygote / agents (directory always overridden)
+API_HOWS = ["path-rel", "str-rel", "settings-rel", "settings-abs", "find-workdir-rel", "find-workdir-abs",
+            "find-named-rel", "find-named-abs"]
+CLI_HOWS = ["workdir-abs", "workdir-rel", "named", "default", "named-abs", "named-rel"]
+CWDS = ["parent", "nested", "inside"]
+
+
+def desig_cwd(ws, where):
+    """the directory a run is started from (created if needed); None = left alone"""
+    ws = Path(ws)
+    if not where:
+        return None
+    if where == "parent":
+        return ws.parent
+    if where == "inside":
+        ws.mkdir(parents=True, exist_ok=True)
+        return ws
+    if where == "nested":
+        d = ws.parent / f"cwd-{ws.name}" / "d"
+        d.mkdir(parents=True, exist_ok=True)
+        return d
+    raise ValueError(where)
+
+
+def desig_text(op):
+    """the designation of an `enter` operation in words (messages, histogram keys)"""
+    via = op.get("via")
+    if not via:
+        return "run-experiment --workdir <absolute path>" if op.get("cli") else "experiment(Path(<absolute path>), ...)"
+    how, cwd = via["how"], via.get("cwd")
+    d = {None: "<absolute path>", "parent": "ws…", "nested": "../../ws…", "inside": "."}[cwd] if how.endswith("rel") else "<absolute path>"
+    text = {
+        "path-rel": f"experiment(Path({d!r}), ...)", "str-rel": f"experiment({d!r}, ...)",
+        "settings-rel": f"experiment(WorkspaceSettings(id, Path({d!r})), ...)", "settings-abs": "experiment(WorkspaceSettings(id, <absolute path>), ...)",
+        "find-workdir-rel": f"experiment(find_workspace(workdir={d!r}), ...)", "find-workdir-abs": "experiment(find_workspace(workdir=<absolute path>), ...)",
+        "find-named-rel": f"experiment(find_workspace(workspace=<id of settings.yaml>, workdir={d!r}), ...)",
+        "find-named-abs": "experiment(find_workspace(workspace=<id of settings.yaml>, workdir=<absolute path>), ...)",
+        "workdir-abs": "run-experiment --workdir <absolute path>", "workdir-rel": f"run-experiment --workdir {d}",
+        "named": "run-experiment --workspace <id of settings.yaml>", "default": "run-experiment (default workspace of settings.yaml)",
+        "named-abs": "run-experiment --workspace <id of settings.yaml> --workdir <absolute path>",
+        "named-rel": f"run-experiment --workspace <id of settings.yaml> --workdir {d}",
+    }[how]
+    return text + (f" [process started in: {cwd} directory]" if cwd else "")
+
+
+def desig_key(op):
+    via = op.get("via")
+    if not via:
+        return ("cli:" if op.get("cli") else "api:") + "absolute(default)"
+    return ("cli:" if op.get("cli") else "api:") + via["how"] + ("/cwd=" + via["cwd"] if via.get("cwd") else "")
+
+
 # =====================================================================================
 # real-code side (worker, zygote and agent processes only)
 
@@ -231,17 +304,52 @@ class Real:
     def launcher(self, ws):
         return self.InstantLauncher(self.LocalConnector(Path(ws) / "conn"))
 
-    def block(self, ws, name, body, before_with=None, run_mode=None):
-        """`with experiment(...)`: body(xp) returns how the block ends. Returns (entered, raised)"""
+    def designate(self, ws, via):
+        """the first argument of `experiment(...)` for a run that names its workspace the way `via` says (the
+        process is already in the directory the relative spellings count from)"""
+        ws = Path(ws)
+        if not via:
+            return ws
+        from experimaestro.settings import WorkspaceSettings, find_workspace
+
+        how = via["how"]
+        rel = os.path.relpath(ws, os.getcwd())
+        if how == "path-rel":
+            return Path(rel)
+        if how == "str-rel":
+            return rel
+        if how == "settings-rel":
+            return WorkspaceSettings("c16", Path(rel))
+        if how == "settings-abs":
+            return WorkspaceSettings("c16", ws)
+        if how == "find-workdir-rel":
+            return find_workspace(workdir=Path(rel))
+        if how == "find-workdir-abs":
+            return find_workspace(workdir=ws)
+        if how == "find-named-rel":  # a workspace of the settings file, its directory given by the caller
+            return find_workspace(workspace=SETTINGS_WS, workdir=Path(rel))
+        if how == "find-named-abs":
+            return find_workspace(workspace=SETTINGS_WS, workdir=ws)
+        raise ValueError(how)
+
+    def block(self, ws, name, body, before_with=None, run_mode=None, via=None):
+        """`with experiment(...)`: body(xp) returns how the block ends. Returns (entered, raised).
+        `via` = how the run names its workspace ({"how", "cwd"}; None = `Path(<absolute>)`): the process is in
+        the directory `cwd` from the construction of the experiment to the end of the block."""
         entered = [False]
         raised = None
+        old_cwd = None
         try:
             kw = {}
             if run_mode:
                 from experimaestro.scheduler.workspace import RunMode
 
                 kw["run_mode"] = RunMode(run_mode)
-            xp = self.experiment(Path(ws), name, port=-1, launcher=self.launcher(ws), **kw)
+            cwd = desig_cwd(ws, (via or {}).get("cwd"))
+            if cwd is not None:
+                old_cwd = os.getcwd()
+                os.chdir(cwd)
+            xp = self.experiment(self.designate(ws, via), name, port=-1, launcher=self.launcher(ws), **kw)
             if before_with:
                 before_with()
             with xp:
@@ -255,6 +363,9 @@ class Real:
                     raise SystemExit(3)
         except BaseException as e:  # noqa: the outcome is recorded
             raised = type(e).__name__
+        finally:
+            if old_cwd is not None:
+                os.chdir(old_cwd)
         return entered[0], raised
 
     def submit(self, xp, objs, kind, x, dep, sync):
@@ -290,10 +401,14 @@ def observe(ws, name, relmap, want_orphans=True):
     def lab_rel(rel):
         return relmap.get(rel, "?" + rel)
 
-    def lab_target(t):
-        pre = str(ws / "jobs") + "/"
-        if t.startswith(pre) and t[len(pre):] in relmap:
-            return relmap[t[len(pre):]]
+    def lab_target(x):
+        """the job whose directory the link leads to, followed the way the file system follows it (a relative
+        target counts from the folder that holds the link); how the target is spelled does not matter"""
+        t = os.readlink(x)
+        real = os.path.realpath(x)
+        pre = os.path.realpath(ws / "jobs") + "/"
+        if real.startswith(pre) and real[len(pre):] in relmap:
+            return relmap[real[len(pre):]]
         return "?" + t.replace(str(ws), "<ws>")
 
     def folder(d):
@@ -304,7 +419,7 @@ def observe(ws, name, relmap, want_orphans=True):
         for x in p.glob("*/*"):
             rel = str(x.relative_to(p))
             if x.is_symlink():
-                out.append([lab_rel(rel), lab_target(os.readlink(x))])
+                out.append([lab_rel(rel), lab_target(x)])
             else:
                 out.append(["!not-a-link:" + rel, ""])
         return sorted(out)
@@ -483,7 +598,7 @@ def agent_loop(real, fin, out):
                     emit(ev="error", what=f"unexpected {c}")
             return "ok"
 
-        entered, raised = real.block(ws, name, body, before_with)
+        entered, raised = real.block(ws, name, body, before_with, via=cmd.get("via"))
         arm.update(k=None, mode=None)
         os.rename, os.unlink = orig_rename, orig_unlink
         real.release.set()
@@ -752,7 +867,7 @@ class HistoryRunner:
             self.record(idx, "inside")
             return self.drive(xp)
 
-        entered, raised = self.real.block(self.ws, XPNAME, body)
+        entered, raised = self.real.block(self.ws, XPNAME, body, via=self.ops[idx].get("via"))
         signal.setitimer(signal.ITIMER_REAL, 0)
         signal.signal(signal.SIGALRM, old)
         self.real.release.set()
@@ -800,14 +915,25 @@ class HistoryRunner:
         planfile.write_text(json.dumps({"pre": [job(o) for _, o in subs], "post": [job(o) for o in eop.get("post", [])],
                                         "end": eop["how"], "out": str(outfile), "ws": str(self.ws)}))
         env = dict(os.environ)
-        home = self.ws.parent / "home"
-        home.mkdir(exist_ok=True)
+        env.pop("PYTEST_CURRENT_TEST", None)
+        # the settings file of the user who starts the command: `main` (the first = default workspace) is the
+        # workspace of this history, `alt` is another directory (runs that name it give the directory themselves)
+        home = self.ws.parent / f"home-{self.hist['id']}"
+        (home / ".config" / "experimaestro").mkdir(parents=True, exist_ok=True)
+        (home / ".config" / "experimaestro" / "settings.yaml").write_text(
+            f"workspaces:\n  - id: main\n    path: {self.ws}\n  - id: {SETTINGS_WS}\n    path: {self.ws.parent / ('alt-' + self.ws.name)}\n")
         env["HOME"] = str(home)
         env["PYTHONPATH"] = libdir + (":" + env["PYTHONPATH"] if env.get("PYTHONPATH") else "")
-        cmd = [sys.executable, "-m", "experimaestro", "run-experiment", "--workdir", str(self.ws), "--env", "PYTHONPATH",
+        via = op.get("via") or {"how": "workdir-abs", "cwd": None}
+        cwd = desig_cwd(self.ws, via.get("cwd"))
+        rel = os.path.relpath(self.ws, cwd) if cwd is not None else None
+        where = {"workdir-abs": ["--workdir", str(self.ws)], "workdir-rel": ["--workdir", rel], "named": ["--workspace", "main"],
+                 "default": [], "named-abs": ["--workspace", SETTINGS_WS, "--workdir", str(self.ws)],
+                 "named-rel": ["--workspace", SETTINGS_WS, "--workdir", rel]}[via["how"]]
+        cmd = [sys.executable, "-m", "experimaestro", "run-experiment", *where, "--env", "PYTHONPATH",
                env["PYTHONPATH"], "-c", f"plan={planfile}", str(Path(libdir) / "c16xp.yaml")]
         try:
-            r = subprocess.run(cmd, env=env, capture_output=True, text=True, timeout=120)
+            r = subprocess.run(cmd, env=env, cwd=cwd, capture_output=True, text=True, timeout=120)
             rc, tail = r.returncode, (r.stdout + r.stderr)[-1500:]
         except subprocess.TimeoutExpired:
             self.record(idx, "cli-timeout")
@@ -848,7 +974,7 @@ class HistoryRunner:
                 self.record(idx, "agent-failed", got=ev)
                 self.abort = "agent did not start"
                 return
-            ag.send(cmd="enter", ws=str(self.ws), name=XPNAME, kill_enter=op.get("kill_enter"))
+            ag.send(cmd="enter", ws=str(self.ws), name=XPNAME, kill_enter=op.get("kill_enter"), via=op.get("via"))
             if ag.expect({"attempt"}, 60) is None:
                 self.record(idx, "agent-failed")
                 self.abort = "agent did not attempt"
@@ -953,6 +1079,13 @@ def worker_main(specfile, outfile):
     die_with_parent()
     spec = json.loads(Path(specfile).read_text())
     os.environ["XPM_WORKDIR"] = str(Path(spec["base"]) / "xpmwork")
+    # the settings file of this worker, its zygote and its agents (read once per process): one named workspace
+    home = Path(spec["base"]) / "home-api"
+    (home / ".config" / "experimaestro").mkdir(parents=True, exist_ok=True)
+    (home / ".config" / "experimaestro" / "settings.yaml").write_text(
+        f"workspaces:\n  - id: {SETTINGS_WS}\n    path: {Path(spec['base']) / 'alt-api'}\n")
+    os.environ["HOME"] = str(home)
+    os.environ.pop("PYTEST_CURRENT_TEST", None)
     zsock = str(Path(spec["base"]) / "z.sock")
     zyg = subprocess.Popen([sys.executable, "-m", "xv.props.c16", "zygote", spec["lib"], zsock], stdout=subprocess.PIPE,
                            stderr=subprocess.DEVNULL, text=True)
@@ -1186,6 +1319,108 @@ CLI_CORPUS = [
 ]
 
 
+def rand_via(rng, cli):
+    """one way of naming the workspace (None = the absolute spelling of the other histories)"""
+    if rng.random() < 0.15:
+        return None
+    how = rng.choice(CLI_HOWS if cli else API_HOWS)
+    if how.endswith("rel"):
+        return {"how": how, "cwd": rng.choice(CWDS)}
+    return {"how": how, "cwd": rng.choice([None, None, "nested", "inside"])}  # where the process is must not matter
+
+
+def _enter(p, via, **kw):
+    e = dict({"op": "enter", "p": p}, **kw)
+    if via:
+        e["via"] = via
+    return e
+
+
+def gen_desig_history(rng, hid):
+    """2-5 runs of experiment `e` through the API, every run naming the (same) workspace its own way; process 0 or a
+    process of its own; ends normally, by an exception or by SIGKILL; sometimes a second process, naming the workspace
+    differently, tries to enter meanwhile (and gives up)"""
+    ops, agent = [], 0
+    for r in range(rng.choice([2, 3, 3, 4, 5])):
+        if rng.random() < 0.5:
+            agent += 1
+            p = agent
+            end = rng.choice(["ok", "ok", "exc", "kill"])
+        else:
+            p = 0
+            end = rng.choice(["ok", "ok", "ok", "exc", "kbd"])
+        if r == 0:
+            end = "ok"
+        ops.append(_enter(p, rand_via(rng, False)))
+        body, mine = [], []
+        for _ in range(rng.choice([1, 2, 2, 3])):
+            if mine and rng.random() < 0.2:
+                a = rng.choice(mine)
+                body.append(_sub(p, "d", rng.choice([0, 1]), job_label("a", a), settle=rng.random() < 0.3))
+            else:
+                k, x = rng.choice([("a", 0), ("a", 1), ("a", 2), ("b", 0), ("b", 1)])
+                if k == "a":
+                    mine.append(x)
+                body.append(_sub(p, k, x, settle=rng.random() < 0.3))
+        if rng.random() < 0.3:
+            agent += 1
+            pos = rng.randrange(len(body) + 1)
+            body.insert(pos, _enter(agent, rand_via(rng, False), expect="blocked"))
+            body.insert(rng.randrange(pos + 1, len(body) + 1), {"op": "giveup", "p": agent})
+        ops += body
+        ops.append({"op": "kill", "p": p, "sig": "KILL"} if end == "kill" else {"op": "exit", "p": p, "how": end})
+    return {"id": hid, "ops": ops}
+
+
+def gen_desig_cli_history(rng, hid):
+    """2-3 runs through `experimaestro run-experiment`, each naming the workspace its own way, then a run through the API"""
+    ops = []
+    nruns = rng.choice([2, 2, 3])
+    for r in range(nruns):
+        jobs = [(*rng.choice([("a", 0), ("a", 1), ("a", 2), ("b", 0), ("b", 1)]), None) for _ in range(rng.choice([1, 2, 2]))]
+        end = "ok" if r == 0 else rng.choice(["ok", "ok", "handled", "exc"])
+        run = cli_run_ops(r + 1, jobs, end)
+        via = rand_via(rng, True)
+        if via:
+            run[0]["via"] = via
+        ops += run
+    ops.append(_enter(0, rand_via(rng, False)))
+    ops += [_sub(0, k, x, settle=False) for k, x in rng.sample([("a", 0), ("a", 1), ("b", 0), ("b", 1)], 2)]
+    ops.append({"op": "exit", "p": 0, "how": rng.choice(["ok", "exc"])})
+    return {"id": hid, "ops": ops}
+
+
+def _with_via(ops, via):
+    ops[0]["via"] = via
+    return ops
+
+
+DESIG_CORPUS = [
+    # a workspace of the settings file whose directory is given relatively (process 0), a relative path (a process of
+    # its own, aborted), find_workspace(workdir=".") from inside the workspace
+    {"id": "dz-0", "ops": [
+        _enter(0, {"how": "find-named-rel", "cwd": "parent"}), _sub(0, "a", 0), _sub(0, "b", 0), {"op": "exit", "p": 0, "how": "ok"},
+        _enter(1, {"how": "path-rel", "cwd": "nested"}), _sub(1, "b", 0), _sub(1, "a", 1), {"op": "exit", "p": 1, "how": "exc"},
+        _enter(0, {"how": "find-workdir-rel", "cwd": "inside"}), _sub(0, "a", 1), {"op": "exit", "p": 0, "how": "ok"}]},
+    # two processes naming one workspace differently: the second is kept out; then the absolute spelling
+    {"id": "dz-1", "ops": [
+        _enter(1, {"how": "find-named-rel", "cwd": "nested"}), _sub(1, "a", 0),
+        _enter(2, {"how": "settings-abs", "cwd": None}, expect="blocked"), _sub(1, "a", 1), {"op": "giveup", "p": 2},
+        {"op": "exit", "p": 1, "how": "ok"},
+        _enter(3, {"how": "str-rel", "cwd": "inside"}), _sub(3, "a", 1), _sub(3, "d", 0, "a1"), {"op": "kill", "p": 3, "sig": "KILL"},
+        _enter(0, None), _sub(0, "a", 0), _sub(0, "a", 1), {"op": "exit", "p": 0, "how": "ok"}]},
+]
+
+DESIG_CLI_CORPUS = [
+    # run-experiment: named workspace + relative directory; relative --workdir from elsewhere; named workspace +
+    # absolute directory, given up (HandledException); the default workspace of the settings file
+    {"id": "dz-cli-0", "ops": _with_via(cli_run_ops(1, [("a", 0, None), ("b", 0, None)], "ok"), {"how": "named-rel", "cwd": "parent"})
+        + _with_via(cli_run_ops(2, [("b", 0, None), ("a", 1, None)], "ok"), {"how": "workdir-rel", "cwd": "nested"})
+        + _with_via(cli_run_ops(3, [("a", 2, None)], "handled"), {"how": "named-abs", "cwd": "inside"})
+        + _with_via(cli_run_ops(4, [("a", 1, None)], "ok"), {"how": "default", "cwd": None})},
+]
+
+
 # ---------------------------------------------------------------- evaluation (model lines + monitors)
 
 
@@ -1223,6 +1458,21 @@ def evaluate(ctx, hist, res, with_model=True):
     case = {"history": hist}
     inside = None  # process observed inside the block
     racy = []  # labels submitted without barrier in the current run, link not looked at yet
+    cur_enter = {}  # the `enter` operation of the run in progress (how it names the workspace)
+    linked_by = {}  # label -> `enter` operation of the run that submitted it last
+    varied = any(o.get("via") for o in ops)
+
+    def enter_of(q, upto):
+        for o in reversed(ops[:upto + 1]):
+            if o["op"] == "enter" and o.get("p", 0) == q:
+                return o
+        return {}
+
+    def named(lab):
+        """for the messages of histories whose runs name the workspace in several ways"""
+        if not varied:
+            return ""
+        return f" [the run that submitted {lab} last named the workspace by: {desig_text(linked_by.get(lab, {}))}]"
 
     def fail(key, what):
         ctx.monitor_fail(key, what, case)
@@ -1234,16 +1484,18 @@ def evaluate(ctx, hist, res, with_model=True):
         for folder in ("jobs", "bak"):
             for n, t in (obs[folder] or []):
                 if n != t:
-                    fail("wrong-target", f"after {phase}: link {n} of {folder} points to {t}, not to the job directory of {n}")
+                    via = linked_by.get(n, {}).get("via")
+                    fail("wrong-target" + (":" + desig_key(linked_by[n]) if via else ""),
+                         f"after {phase}: link {n} of {folder} points to {t}, it does not lead to the job directory of {n}{named(n)}")
         indexed = names(obs["jobs"]) | names(obs["bak"])
         for l in sorted(tr.plan | tr.aborted | tr.cur):
             if l not in obs["dirs"]:
                 continue
             if obs["orphans"] is not None and l in obs["orphans"]:
                 fail(f"orphaned:{phase}", f"after {phase}: job {l} is reported by `orphans` (last completed plan {sorted(tr.plan)}, aborted since "
-                     f"{sorted(tr.aborted)}, current run {sorted(tr.cur)}); {folders(obs)}")
+                     f"{sorted(tr.aborted)}, current run {sorted(tr.cur)}); {folders(obs)}{named(l)}")
             elif l not in indexed:
-                fail(f"orphaned:{phase}", f"after {phase}: job {l} has a directory and no link in jobs or jobs.bak; {folders(obs)}")
+                fail(f"orphaned:{phase}", f"after {phase}: job {l} has a directory and no link in jobs or jobs.bak; {folders(obs)}{named(l)}")
 
     def add(line, obs):
         lines.append(line)
@@ -1273,9 +1525,12 @@ def evaluate(ctx, hist, res, with_model=True):
         if r in ("inside", "pending-entered"):
             q = ev.get("p", p)
             if inside is not None and inside != q:
-                fail("lock-not-exclusive", f"process {q} entered the block of experiment `{XPNAME}` while process {inside} was inside it")
+                fail("lock-not-exclusive", f"process {q} entered the block of experiment `{XPNAME}` while process {inside} was inside it"
+                     + (f" [workspace named by: {desig_text(enter_of(q, ev['i']))} / {desig_text(cur_enter)}]" if varied else ""))
             add({"op": "enter", "p": q}, obs)
             inside = q
+            cur_enter = enter_of(q, ev["i"])
+            ctx.count("workspace_named_by", desig_key(cur_enter))
             tr.before = dict(tr.last)
             tr.cur = set()
             racy = []
@@ -1288,6 +1543,9 @@ def evaluate(ctx, hist, res, with_model=True):
         elif r == "blocked":
             add({"op": "enter", "p": p}, obs)
             phase = "blocked-enter"
+            ctx.count("contender_names_workspace", "as the holder does" if op.get("via") == cur_enter.get("via") else
+                      "differently: " + ("relative" if desig_key(op).split("/")[0].endswith("rel") else "absolute") + " vs holder's "
+                      + ("relative" if desig_key(cur_enter).split("/")[0].endswith("rel") else "absolute"))
             if inside is None:
                 fail(f"lock-not-released:{tr.phase}", f"process {p} is kept waiting for experiment `{XPNAME}` although no process is inside it (after {tr.phase})")
             if obs and (obs["jobs"] != tr.last["jobs"] or obs["bak"] != tr.last["bak"]):
@@ -1299,6 +1557,7 @@ def evaluate(ctx, hist, res, with_model=True):
             break
         elif r == "submitted":
             lab = op["job"]
+            linked_by[lab] = cur_enter
             if op.get("sync", True):
                 add({"op": "submit", "p": p, "l": lid(lab)}, obs)
                 tr.cur.add(lab)
@@ -1467,6 +1726,9 @@ def run_histories(ctx, hists, with_model=True, nworkers=None):
         for p, _, _ in procs:
             if p.poll() is None:
                 p.kill()
+    if os.environ.get("C16_WALLS"):  # diagnostic: the slowest histories and the load of each worker
+        sys.stderr.write("slowest: " + str(sorted(((r["wall"], i) for i, r in results.items()), reverse=True)[:12]) + "\n")
+        sys.stderr.write("workers: " + str([round(sum(results[h["id"]]["wall"] for h in c), 1) for c in chunks]) + "\n")
     all_lines, slices = [], []
     for h in hists:
         res = results[h["id"]]
@@ -1519,7 +1781,13 @@ def correspond(ctx):
                 "`python -m experimaestro run-experiment` processes with the default launcher (job processes really run), ending normally, by a "
                 "failing job + xp.wait() (FailedExperiment), by a failing job caught by the command's own wait, by a HandledException or a "
                 "RuntimeError of the run function, mixed with API runs; same comparison with the model plus the exit status (non-zero iff the "
-                "run aborted). Not driven: utils/jupyter.py `serverwidget` (calls __enter__/__exit__(None, None, None) of the same class by "
+                "run aborted). (3) Naming of the workspace: separate histories (2+1 fixed, 30 API + 2 command-line generated in quick; 400 + 24 in "
+                "thorough) in which every run designates the same workspace its own way — relative Path/str (process started in the parent "
+                "directory, in a nested directory, in the workspace itself), WorkspaceSettings(id, path), find_workspace(workdir=…), "
+                "find_workspace(workspace=<id of a settings.yaml>, workdir=…), `run-experiment --workdir D`, `--workspace ID`, `--workspace ID "
+                "--workdir D`, no option (default workspace of the settings file) — with contenders that name it differently from the holder; "
+                "same monitors: a link leads to its job directory iff following it (realpath) arrives at <workspace>/jobs/<task>/<id>. "
+                "Not driven: utils/jupyter.py `serverwidget` (calls __enter__/__exit__(None, None, None) of the same class by "
                 "hand; needs ipywidgets); experiment.load/save and services do not touch jobs/ or jobs.bak. "
                 "Non-trivial = at least two ended runs with two different kinds of ending and at least two submissions; distinct = distinct "
                 "operation list")
@@ -1534,8 +1802,15 @@ def correspond(ctx):
     n = ctx.scale(150, 2000)
     ncli = ctx.scale(2, 46)
     # the histories through the command line come first: they take seconds each and go to different workers
-    hists = ([dict(h) for h in CLI_CORPUS] + [gen_cli_history(ctx.rng, f"{ctx.seed}-cli{i}") for i in range(ncli)]
-             + [dict(h) for h in CORPUS] + [gen_history(ctx.rng, f"{ctx.seed}-{i}") for i in range(n)])
+    # runs that name the same workspace in different ways (own random stream: the other histories of a seed stay as they were)
+    drng = random.Random(f"c16-designation-{ctx.seed}")
+    dcli = [gen_desig_cli_history(drng, f"{ctx.seed}-dzcli{i}") for i in range(ctx.scale(2, 24))]
+    dapi = [gen_desig_history(drng, f"{ctx.seed}-dz{i}") for i in range(ctx.scale(30, 400))]
+    dfix_cli, dfix = [dict(h) for h in DESIG_CLI_CORPUS], [dict(h) for h in DESIG_CORPUS]
+    if os.environ.get("C16_NO_DESIGNATION"):  # diagnostic (timing comparisons): the check as it was without these histories
+        dcli, dapi, dfix_cli, dfix = [], [], [], []
+    hists = ([dict(h) for h in CLI_CORPUS] + dfix_cli + [gen_cli_history(ctx.rng, f"{ctx.seed}-cli{i}") for i in range(ncli)] + dcli
+             + [dict(h) for h in CORPUS] + dfix + [gen_history(ctx.rng, f"{ctx.seed}-{i}") for i in range(n)] + dapi)
     for k in range(0, len(hists), 240):  # fresh workers per batch (a worker leaks a thread and a few fds per run)
         run_histories(ctx, hists[k:k + 240])
 
